@@ -74,6 +74,9 @@ def gen_case(rng, exact: bool, i: int):
         "scalar_logp": rng.random() < 0.3,
         "batch_size": rng.choice([None, 1, 2, 3, rng.randint(1, 70), rng.randint(1, 12)]),
         "passes": rng.randint(1, 3),
+        # seeding round 5 (C05_5): several passes ALIVE AT ONCE (nested loops / zip over buf.get()): the generators are
+        # advanced round-robin; every one of them must still be an exact partition taken from one (step, env) per sample
+        "interleave": rng.random() < 0.35,
         "id": i,
     }
     return case
@@ -134,25 +137,38 @@ def run_impl(case):
     passes = []
     np.random.permutation = rec
     try:
-        for _ in range(case["passes"]):
-            mbs = []
-            for mb in buf.get(case["batch_size"]):
-                if case["dict_obs"]:
-                    oa = mb.observations["a"].numpy().reshape(len(mb.observations["b"]), -1)
-                    ob = mb.observations["b"].numpy().reshape(len(oa), 3)
-                    obs_tags = [sorted(set([float(v) for v in oa[k]] + [float(v) for v in ob[k]])) for k in range(len(oa))]
-                else:
-                    o = mb.observations.numpy().reshape(len(mb.actions), -1)
-                    obs_tags = [sorted(set(float(v) for v in o[k])) for k in range(len(o))]
-                mbs.append({
-                    "obs_tags": obs_tags,
-                    "act": mb.actions.numpy().tolist(),
-                    "val": mb.old_values.numpy().tolist(),
-                    "logp": mb.old_log_prob.numpy().tolist(),
-                    "adv": mb.advantages.numpy().tolist(),
-                    "ret": mb.returns.numpy().tolist(),
-                })
-            passes.append(mbs)
+        def conv(mb):
+            if case["dict_obs"]:
+                oa = mb.observations["a"].numpy().reshape(len(mb.observations["b"]), -1)
+                ob = mb.observations["b"].numpy().reshape(len(oa), 3)
+                obs_tags = [sorted(set([float(v) for v in oa[k]] + [float(v) for v in ob[k]])) for k in range(len(oa))]
+            else:
+                o = mb.observations.numpy().reshape(len(mb.actions), -1)
+                obs_tags = [sorted(set(float(v) for v in o[k])) for k in range(len(o))]
+            return {
+                "obs_tags": obs_tags,
+                "act": mb.actions.numpy().tolist(),
+                "val": mb.old_values.numpy().tolist(),
+                "logp": mb.old_log_prob.numpy().tolist(),
+                "adv": mb.advantages.numpy().tolist(),
+                "ret": mb.returns.numpy().tolist(),
+            }
+
+        if case.get("interleave") and case["passes"] > 1:
+            gens = [buf.get(case["batch_size"]) for _ in range(case["passes"])]
+            passes = [[] for _ in gens]
+            live = list(range(len(gens)))
+            while live:
+                for gi in list(live):
+                    try:
+                        mb = next(gens[gi])
+                    except StopIteration:
+                        live.remove(gi)
+                        continue
+                    passes[gi].append(conv(mb))
+        else:
+            for _ in range(case["passes"]):
+                passes.append([conv(mb) for mb in buf.get(case["batch_size"])])
     finally:
         np.random.permutation = orig
     f = lambda a: [[float(x) for x in row] for row in a]  # noqa: E731
@@ -261,11 +277,22 @@ def compare(case, impl, model_vals):
                 probs.append(("oracle-gae-return", f"return[{t},{e}] impl={impl['ret'][t][e]!r} != advantage+value"))
     # --- minibatches
     k = n
-    for pi, (perm, mbs) in enumerate(zip(impl["perms"], impl["passes"])):
-        model_mbs = model_vals[k]
-        k += 1
+    # seeding round 5 (C05_5): the oracle part below runs for EVERY pass, whether or not the implementation drew its
+    # order through np.random.permutation (the recorded draws feed only the model comparison); an implementation that
+    # obtains its order elsewhere is reported as a broken correspondence of the order (no failing input by itself)
+    if len(impl["perms"]) != len(impl["passes"]):
+        probs.append(("permutation-source", f"{len(impl['passes'])} passes but {len(impl['perms'])} np.random.permutation draws were recorded: "
+                      "the minibatch order no longer comes from one fresh permutation per pass (Model.Minibatch ties the order to it)"))
+    for pi, mbs in enumerate(impl["passes"]):
+        if pi < len(impl["perms"]):
+            model_mbs = model_vals[k]
+            k += 1
+        else:
+            model_mbs = None
         seen = []
-        if len(model_mbs) != len(mbs):
+        if model_mbs is None:
+            model_mbs = []
+        elif len(model_mbs) != len(mbs):
             probs.append(("minibatch-count", f"pass {pi}: impl yields {len(mbs)} minibatches, model {len(model_mbs)}"))
         for bi, mb in enumerate(mbs):
             cells = []
@@ -289,7 +316,7 @@ def compare(case, impl, model_vals):
                 probs.append(("minibatch-content", f"pass {pi} batch {bi}: impl cells {cells} model {model_mbs[bi]}"))
         if sorted(seen) != [(t, e) for t in range(T) for e in range(n)]:
             probs.append(("oracle-not-exactly-once", f"pass {pi}: (step, env) multiset of the pass is not every cell exactly once"))
-    flat_model = model_vals[k]
+    flat_model = model_vals[n + len(impl["perms"])]
     if flat_model != impl["flat"]:
         probs.append(("flatten", f"swap_and_flatten impl={impl['flat']} model={flat_model}"))
     return probs
@@ -371,7 +398,7 @@ def main():
     chk.coverage["evaluations"] = len(cases)
     chk.coverage["traces_validated_against_impl"] = len(cases)
     chk.coverage["distinct_nontrivial"] = len(distinct)
-    chk.coverage["rule"] = ("random rollouts (n_steps 1-12, n_envs 1-5, batch sizes None/1..70, 1-3 passes, array and Dict buffers); "
+    chk.coverage["rule"] = ("random rollouts (n_steps 1-12, n_envs 1-5, batch sizes None/1..70, 1-3 passes - sequential or alive at once and advanced round-robin -, array and Dict buffers); "
                             "exact stream: dyadic gamma/lambda/rewards/values compared with tolerance 0, toleranced stream: rel 1e-4; "
                             "non-trivial = an episode boundary strictly inside the rollout with n_steps >= 2, or a batch size that does not divide the rollout; "
                             "distinct = distinct full case description")
